@@ -386,7 +386,7 @@ impl Engine for C07 {
         let corpus = small_corpus(env);
         let mut docs = Vec::new();
         for _ in 0..n_docs {
-            let d = match w.below(10) {
+            let d = match w.below(11) {
                 0 | 1 => Doc::from_str(&docgen::failing_doc(&mut w).0),
                 2 if !corpus.is_empty() => Doc(corpus[w.usize(corpus.len())].1.clone()),
                 3 => Doc::from_str(&format!(
@@ -399,7 +399,8 @@ impl Engine for C07 {
                     *w.pick(&["<rect wh=\"3\" text=\"x\"/>", "<g><circle r=\"2\"/><rect xy=\"^|h\" wh=\"1\"/></g>", "<text xy=\"1 1\">frag</text>"])
                 }),
                 6 => Doc::from_str(&docgen::leak_probe_doc(&mut w)),
-                7 | 8 => Doc::from_str(&docgen::stateful_doc(&mut w)),
+                7 => Doc::from_str(&docgen::stateful_doc(&mut w)),
+                8 => Doc::from_str(&if w.chance(1, 2) { docgen::near_limit_doc(&mut w) } else { docgen::long_line_fragment(&mut w) }),
                 5 if damage => Doc(vec![b'<', b's', b'v', b'g', b'>', 0xff, b'<', b'/', b's', b'v', b'g', b'>']),
                 _ => Doc::from_str(&docgen::feature_doc(&mut w, w_bool(&mut c), true)),
             };
@@ -408,7 +409,7 @@ impl Engine for C07 {
         let n_cfgs = 1 + w.usize(3);
         let mut cfgs: Vec<Cfg> = Vec::new();
         for i in 0..n_cfgs {
-            let mut k = if i == 0 { Cfg::default() } else { docgen::draw_cfg(&mut c, false) };
+            let mut k = if i == 0 { Cfg::default() } else { docgen::draw_cfg(&mut c, true) };
             if i > 0 && c.chance(1, 2) {
                 // a configuration differing from another one only in the seed
                 k = cfgs[0].clone();
